@@ -27,7 +27,22 @@ use super::*;
 use crate::clock::ClockMode;
 use crate::script::Whence;
 
-pub const TARGETS: [&str; 6] = ["write", "create_file", "create_dir", "remove", "rename", "truncate"];
+pub const TARGETS: [&str; 13] = [
+    "write",
+    "create_file",
+    "create_dir",
+    "remove",
+    "rename",
+    "truncate",
+    // fault + RETRY ON THE SAME HANDLE
+    "flush",            // 6: flush after a size-changing write; the flush is repeated
+    "write-end-ends",   // 7..12: ONE `write` call that ends on / starts on / runs up to a cluster boundary, at the end
+    "write-end-starts", //        of the chain (the next cluster has to be allocated) and in the middle of the chain;
+    "write-end-cross",  //        the same call is repeated on the same handle
+    "write-mid-ends",
+    "write-mid-starts",
+    "write-mid-cross",
+];
 
 fn p(s: &str) -> Vec<u8> {
     s.as_bytes().to_vec()
@@ -75,6 +90,36 @@ fn pre(r: &mut Run, t: usize) {
                 }
             }
         }
+        6 => {
+            // a write that changes the size: the entry is waiting to be written back
+            let f = r.cx.new_f();
+            if r.cx.step(Op::OpenFile { d: 0, path: p("keep.bin"), new: f }).is_ok() {
+                r.fh = Some(f);
+                r.cx.step(Op::Seek { f, whence: Whence::End, n: 0 });
+                r.cx.step(Op::Write { f, data: vec![0x51, 0x52, 0x53, 0x54, 0x55] });
+            }
+        }
+        7..=12 => {
+            // keep.bin is brought to exactly three clusters (entry flushed), then the position for the one write
+            let cs = r.cx.vol.cs as i64;
+            let f = r.cx.new_f();
+            if r.cx.step(Op::OpenFile { d: 0, path: p("keep.bin"), new: f }).is_ok() {
+                r.fh = Some(f);
+                r.cx.step(Op::Seek { f, whence: Whence::End, n: 0 });
+                let fill: Vec<u8> = (0..(2 * cs - 10) as usize).map(|i| 0x61 + (i % 23) as u8).collect();
+                r.cx.step(Op::WriteAll { f, data: fill });
+                r.cx.step(Op::Flush(f));
+                let pos = match t {
+                    7 => 3 * cs - 20,
+                    8 => 3 * cs,
+                    9 => 3 * cs - 10,
+                    10 => cs - 20,
+                    11 => cs,
+                    _ => cs - 10,
+                };
+                r.cx.step(Op::Seek { f, whence: Whence::Start, n: pos });
+            }
+        }
         _ => {}
     }
 }
@@ -94,7 +139,12 @@ fn target_op(r: &mut Run, t: usize, data: &[u8], again: bool) -> Op {
         }
         3 => Op::Remove { d: 0, path: p("victim.txt") },
         4 => Op::Rename { d: 0, src: p("ren.txt"), d2: 0, dst: p(if again { "dir/renamed again.txt" } else { "dir/renamed.txt" }) },
-        _ => Op::Truncate(r.fh.unwrap_or(999)),
+        5 => Op::Truncate(r.fh.unwrap_or(999)),
+        6 => Op::Flush(r.fh.unwrap_or(999)),
+        _ => {
+            let len = if matches!(t, 9 | 12) { 30 } else { 20 };
+            Op::Write { f: r.fh.unwrap_or(999), data: data[..len].to_vec() }
+        }
     }
 }
 
@@ -119,18 +169,49 @@ fn drop_handles(r: &mut Run) {
 }
 
 fn go_on(r: &mut Run, t: usize, data: &[u8], rng: &mut SplitMix64) {
-    drop_handles(r);
+    if t >= 6 {
+        // the SAME call once more on the SAME handle, then make it durable and look at the result with fresh eyes
+        if let Some(f) = r.fh {
+            let op = target_op(r, t, data, true);
+            let out = r.cx.step(op.clone());
+            if let (Op::Write { data: d, .. }, Out::Ok(v)) = (&op, &out) {
+                // a single call stops at the cluster boundary: the rest goes in a second call
+                let n: usize = v.parse().unwrap_or(d.len());
+                if n < d.len() {
+                    r.cx.step(Op::Write { f, data: d[n..].to_vec() });
+                }
+            }
+            r.cx.step(Op::Flush(f));
+            // what the session sees through this handle after the successful flush (the image must say the same)
+            r.cx.step(Op::Seek { f, whence: Whence::Start, n: 0 });
+            r.cx.step(Op::ReadAll(f));
+            r.cx.step(Op::DropF(f));
+            r.fh = None;
+            let g = r.cx.new_f();
+            if r.cx.step(Op::OpenFile { d: 0, path: p("keep.bin"), new: g }).is_ok() {
+                r.cx.step(Op::ReadAll(g));
+                r.cx.step(Op::Extents(g));
+                r.cx.step(Op::DropF(g));
+            }
+            r.cx.step(Op::List(0));
+        }
+    } else {
+        drop_handles(r);
+        if r.cx.dead {
+            return;
+        }
+        // T once more, with fresh handles
+        pre(r, t);
+        if !(matches!(t, 0 | 5) && r.fh.is_none()) {
+            let op = target_op(r, t, data, true);
+            let out = r.cx.step(op);
+            settle(r, t, &out);
+        }
+        drop_handles(r);
+    }
     if r.cx.dead {
         return;
     }
-    // T once more, with fresh handles
-    pre(r, t);
-    if !(matches!(t, 0 | 5) && r.fh.is_none()) {
-        let op = target_op(r, t, data, true);
-        let out = r.cx.step(op);
-        settle(r, t, &out);
-    }
-    drop_handles(r);
     // one more mutating call sequence
     let f = r.cx.new_f();
     if r.cx.step(Op::CreateFile { d: 0, path: p("more.bin"), new: f }).is_ok() {
@@ -189,7 +270,7 @@ pub fn run(tier: Tier, seed: u64, rng: &mut SplitMix64, n: Option<u64>, sink: &m
             if !full {
                 if let Some(sc) = status_call {
                     match t {
-                        0 => {}
+                        0 | 6..=12 => {}
                         5 => ks.retain(|k| *k > sc),
                         _ => ks.retain(|k| *k != sc && *k + 1 != sc),
                     }
@@ -200,7 +281,7 @@ pub fn run(tier: Tier, seed: u64, rng: &mut SplitMix64, n: Option<u64>, sink: &m
                 let id = format!("faultgo-{}-{}t{}-{}", seed, vol.bits, t, k);
                 let mut r = setup(id, seed, vol, &mut r0);
                 pre(&mut r, t);
-                if matches!(t, 0 | 5) && r.fh.is_none() {
+                if matches!(t, 0 | 5..=12) && r.fh.is_none() {
                     r.cx.finish(sink);
                     continue;
                 }
